@@ -441,7 +441,7 @@ def c12(tier):
         jobs += [twin_job("C12", 1, sh, r=1) for sh in ("ATnL", "gxL", "ATnRnL")]   # gxL: a malformed line (ERROR state) with a possible CR before the LF
     else:
         # (two refusals of each kind per run were tried: the hint refinement does not converge within the budget - one of each kind plus the byte-boundary refusal)
-        jobs += [twin_job("C12", 1, sh, r=1) for sh in ("ATnL", "gxL", "ATnRnL", "ATn?L", "ATn=aL")]
+        jobs += [twin_job("C12", 1, sh, r=1) for sh in ("ATnL", "gxL", "ATnRnL", "ATn?L")]     # (the write shape ATn=aL does not converge either: hint-incomplete whose replay adds no state)
     return with_prop("C12", jobs)
 
 
